@@ -94,6 +94,14 @@ def run(prop, tier, seed):
         v.cov["impl_" + cfg.replace(".cfg", "") + "_reachable"] = bool(mi["violated"])
         if not mi["violated"]:
             raise vlib.Machinery("FractalImpl.tla no longer reaches: " + what)
+    # one direction of a connection (Conn.tla): per-lane order for both receive rules; a stop completes with the
+    # repaired rule and is refuted for the pinned one (its counterexample is the BadFrame schedule below)
+    cg = vlib.tlc_mc(d, "Conn.tla", "Conn_guarded.cfg", timeout=600)
+    vlib.require_mc_ok(cg, "Conn (guarded receive)")
+    cu = vlib.tlc_mc(d, "Conn.tla", "Conn_unguarded.cfg", timeout=600)
+    v.cov["conn_unguarded_receive_refuted"] = bool(cu["violated"])
+    if not cu["violated"]:
+        raise vlib.Machinery("Conn.tla with the unguarded receive rule no longer shows the stop that never completes")
     special(v, d, drv, seed, reps=1 if tier == "quick" else 5)
     n = 120 if tier == "quick" else 2500
     behs = []
